@@ -1,7 +1,7 @@
 (* Extraction of the executable model and specs to OCaml (ExtrOcamlBasic only: bool, option, unit, list, prod,
    sumbool, sumor map to OCaml natives; N, positive, nat stay the extracted datatypes). *)
 From Coq Require Extraction ExtrOcamlBasic.
-From EC Require Import Base Model.Utf8 Model.Input Spec.Utf8Spec Spec.KeyUnits Model.Utils Model.Editor Model.Token Model.Args Model.History Model.Sink Model.Writer Model.Cli Model.Handler Model.Derive
+From EC Require Import Base Model.Utf8 Model.Input Spec.Utf8Spec Spec.KeyUnits Model.Utils Model.Editor Model.Token Model.Args Model.History Model.Sink Model.Writer Model.Cli Model.Handler Model.Derive Model.Doc
   Spec.QuoteSpec Spec.Framing Spec.Terminal Spec.IdealEditor Spec.HistSpec Spec.ArgSpec Spec.CompletionSpec Spec.Session.
 Extraction Language OCaml.
 Extraction "model.ml" Utf8.run Input.runa Input.ig0 Utf8.acc0 Utf8Spec.validb Utf8Spec.wf_charb
@@ -20,4 +20,4 @@ Extraction "model.ml" Utf8.run Input.runa Input.ig0 Utf8.acc0 Utf8Spec.validb Ut
   HistSpec.hs_push HistSpec.hs_older HistSpec.hs_newer HistSpec.hspec0
   ArgSpec.classify_all ArgSpec.chars_of CompletionSpec.complete_spec
   Derive.cmdset_of Derive.parse_set Derive.conv
-  Session.astate0 Session.astep Input.accept.
+  Session.astate0 Session.astep Input.accept Doc.doc_help.
